@@ -507,9 +507,9 @@ V("C07", "merge-profiles-slip", "fire", (U, "rc1[2] + rc2[2], rc1[3] + rc2[3]]",
 V("C07", "merge-profiles-zip-silent", "silent", (U, "    return [rc1[0] + rc2[0], rc1[1] + rc2[1], rc1[2] + rc2[2], rc1[3] + rc2[3]]", "    return [x + y for x, y in zip(rc1, rc2)]"), "same merge")
 V("C07", "folder-listed-always", "fire", (COB, "            self.tree[f\"{path}/\"] = SourceFolder()\n            self.add_folder(get_parent_folder(path))\n            parent_folder = self.tree[f\"{get_parent_folder(path)}/\"]\n            parent_folder.add_folder(get_basename(path))",
                                            "            self.tree[f\"{path}/\"] = SourceFolder()\n            self.add_folder(get_parent_folder(path))\n        if True:\n            parent_folder = self.tree[f\"{get_parent_folder(path)}/\"]\n            parent_folder.add_folder(get_basename(path))"),
-  "a folder is listed again for every file added below it", "add_folder/once")
+  "a folder is listed again for every file added below it", "rule=R")
 V("C07", "totals-recreated", "fire", (COB, "        if entry.language not in self.totals:\n            self.totals[entry.language] = LanguageTotals(entry.language)", "        self.totals[entry.language] = LanguageTotals(entry.language)"),
-  "totals reset for every file", "add_file/totals-creation")
+  "totals reset for every file", "rule=R")
 V("C07", "aggregate-twice", "fire", (SCANCMD, "    codebase.aggregate()\n", "    codebase.aggregate()\n    codebase.aggregate()\n"), "profiles doubled", "aggregate-twice")
 V("C07", "reader-no-aggregate", "fire", (RR, "        codebase.aggregate()\n", ""), "re-read report has empty folder profiles", "no-aggregate")
 V("C07", "file-loc-len", "fire", (SCN, "    file_loc = sum([m.value for m in measurements])", "    file_loc = len(measurements)"), "file total is the number of functions", "_analyze_file/loc")
